@@ -33,7 +33,7 @@ type SimpOut = Result<Option<RS>, String>;
 
 fn run_simplify(input: &RS) -> SimpOut {
     let cs = to_partial_dsym(input);
-    match std::panic::catch_unwind(std::panic::AssertUnwindSafe(|| simplify(&cs).map(|o| from_dsym(&o)))) {
+    match crate::engine::in_subject(|| std::panic::catch_unwind(std::panic::AssertUnwindSafe(|| simplify(&cs).map(|o| from_dsym(&o))))) {
         Err(e) => Err(format!("panic: {}", panic_message(&e))),
         Ok(None) => Ok(None),
         Ok(Some(None)) => Err("result is not complete".into()),
